@@ -199,3 +199,71 @@ func gslbC03() {
 		}
 	}
 }
+
+// reloadShapesC03: (names before) -> (names after) of a gslb reload; every shape adds a name that sorts
+// before a surviving one (Reload keeps survivors first, appends new names, then sorts).
+var reloadShapesC03 = [][2][]string{
+	{{"s1"}, {"s0", "s1"}},
+	{{"s1"}, {"GSLB_BLACKHOLE", "s1"}},
+	{{"s1", "s2"}, {"s0", "s2"}},
+	{{"s0", "s2"}, {"s0", "s1", "s2"}},
+}
+
+// VerifC03_reload: the first-choice rule after a reload history. Init(conf0)+BackendInit, then
+// Reload(conf)+BackendReload with a conf that adds sub-clusters (one available backend each, so every
+// sub-cluster that has backends has an eligible one): for every key the first-choice sub-cluster has
+// positive weight, and a first-try Balance forwards only into a positive-weight, non-blackhole
+// sub-cluster (ErrGslbBlackhole exactly when the first choice is the blackhole).
+func VerifC03_reload() {
+	shape := reloadShapesC03[vrt.Choose("shape", vrt.Param("SHAPES", len(reloadShapesC03)))]
+	draw := func(names []string) gslb_conf.GslbClusterConf {
+		gc := gslb_conf.GslbClusterConf{}
+		for _, nm := range names {
+			w := vrt.Int("subweight")
+			vrt.Assume(w >= -1 && w <= 3)
+			gc[nm] = w
+		}
+		vrt.Assume(gc.Check() == nil) // what the gslb loader enforces
+		return gc
+	}
+	g0, gc := draw(shape[0]), draw(shape[1])
+	cb := cluster_table_conf.ClusterBackend{}
+	for _, nm := range []string{"s0", "s1", "s2", "GSLB_BLACKHOLE"} {
+		cb[nm] = mkBackendsC03(nm, 1)
+	}
+	bal := NewBalanceGslb("c")
+	vrt.MapOrder(true)
+	vrt.Assert(bal.Init(g0) == nil, "C03/init-accepts-checked-conf")
+	bal.BackendInit(cb)
+	vrt.Assert(bal.Reload(gc) == nil, "C03/reload-accepts-checked-conf")
+	bal.BackendReload(cb)
+	vrt.MapOrder(false)
+
+	req := &bfe_basic.Request{Stat: &bfe_basic.RequestStat{}}
+	req.ClientAddr = &net.TCPAddr{IP: net.IP(vrt.Bytes("ip", 4))}
+	// One Balance call only (a separate subClusterBalance call would give the solver a second
+	// remainder by the symbolic total weight). With one available positive-weight backend in every
+	// sub-cluster, a first try (RetryTime 0 <= retryMax) succeeds inside the first-choice sub-cluster
+	// unless that is the blackhole, so the first choice is observable from the result.
+	b, err := bal.Balance(req)
+	if err != nil {
+		// the only admissible failure: the request was assigned to the blackhole, which then must
+		// carry positive weight
+		vrt.Assert(err == bfe_basic.ErrGslbBlackhole && b == nil, "C03/blackhole-rejected")
+		bw, listed := gc["GSLB_BLACKHOLE"]
+		vrt.Assert(listed && bw > 0, "C03/first-choice-positive-weight-after-reload")
+		return
+	}
+	vrt.Assert(b != nil && !req.Stat.IsCrossCluster, "C03/first-choice-eligible-is-success")
+	hit := false
+	for _, sub := range bal.subClusters {
+		for i := 0; i < sub.Len(); i++ {
+			if _, _, bk := bal_slb.VerifHelpGetRR(sub.backends, i); bk == b {
+				hit = true // sub.Name is concrete here
+				vrt.Assert(sub.sType != TypeGslbBlackhole, "C03/never-forwards-to-blackhole")
+				vrt.Assert(sub.weight > 0 && gc[sub.Name] > 0, "C03/first-choice-positive-weight-after-reload")
+			}
+		}
+	}
+	vrt.Assert(hit, "C03/backend-member")
+}
